@@ -17,7 +17,7 @@ RULE = ("(a) random programs x wild renderings (blank lines, comment lines, trai
         "raw line breaks inside quoted strings) x eol in {LF, CRLF, CR} x parser histories of 0-3 earlier texts; (b) every fault kind "
         "x random position in random valid EEMS models, via API and CLI; distinct by (eol, history kinds, node kinds) / (fault kind, "
         "command, parameter, spread)")
-REQUIRED_COUNTERS = ["tree_nodes_compared", "histories_with_reuse", "fault_linenos_checked", "cli_marker_lines_checked", "eems2_fault_linenos_checked"]
+REQUIRED_COUNTERS = ["tree_nodes_compared", "histories_with_reuse", "fault_linenos_checked", "cli_marker_lines_checked", "eems2_fault_linenos_checked", "runtime_fault_linenos_checked"]
 ASSUMPTIONS = ["the head 'Result = Command(' is kept on one line (the statement says where a node starts; the code reports the command-name token)",
                "for a fault inside a multi-line list both the argument's first line and the element's own line are accepted",
                "errors raised during execution with lineno None are not judged", "CR-only texts are generated without comments"]
@@ -30,14 +30,29 @@ def cases(ctx):
     rng = ctx.rng("cases")
     for i in range(ctx.n(2000, 120000)):
         prog = syntax.gen_program(rng, max_cmds=5)
-        eol = rng.choice(["\n", "\n", "\r\n", "\r\n", "\r"])
+        eol = rng.choice(["\n", "\n", "\r\n", "\r\n", "\r", "mixed"])
         r = syntax.Renderer(random.Random(rng.randrange(10 ** 9)), "wild", head_one_line=True, raw_newline_strings=(eol == "\n" and rng.random() < 0.5))
-        if eol == "\r":
+        if eol in ("\r", "mixed"):
             r.no_comments = True
         text = r.program(prog)
-        if eol == "\r" and "#" in text:
+        if eol in ("\r", "mixed") and "#" in text:
             eol = "\n"
-        text = text.replace("\n", eol)
+        if eol == "mixed":
+            # every line break independently LF, CR LF or bare CR (each counts as one line)
+            rr = random.Random(rng.randrange(10 ** 9))
+            out, prev_cr = [], False
+            for ch in text:
+                if ch == "\n":
+                    # a bare CR directly followed by LF would read as one CR LF: never put LF right after a bare CR
+                    br = rr.choice(["\r\n", "\r", "\r"] if prev_cr else ["\n", "\r\n", "\r", "\r"])
+                    out.append(br)
+                    prev_cr = br == "\r"
+                else:
+                    out.append(ch)
+                    prev_cr = False
+            text = "".join(out)
+        else:
+            text = text.replace("\n", eol)
         hist = []
         for _ in range(rng.choice([0, 0, 1, 2, 3])):
             k = rng.choice(["other", "v2", "bad", "same", "shifted", "shifted"])
@@ -49,10 +64,14 @@ def cases(ctx):
                 hist.append(["bad", BAD_TEXT])
             elif k == "shifted":
                 # the very same program with a different number of leading blank / comment lines
-                hist.append(["shifted", rng.choice(["\n", "\n\n\n", "# moved\n\n", "  \n"]).replace("\n", eol if eol != "\r" or True else eol) + text.lstrip("\r\n \t")])
+                hist.append(["shifted", rng.choice(["\n", "\n\n\n", "# moved\n\n", "  \n"]).replace("\n", eol if eol != "mixed" else "\n") + text.lstrip("\r\n \t")])
             else:
                 hist.append(["same", text])
-        yield {"kind": "tree", "prog": prog, "text": text, "eol": {"\n": "lf", "\r\n": "crlf", "\r": "cr"}[eol], "history": hist}
+        yield {"kind": "tree", "prog": prog, "text": text, "eol": {"\n": "lf", "\r\n": "crlf", "\r": "cr", "mixed": "mixed"}[eol], "history": hist}
+    for i in range(ctx.n(60, 3000)):
+        yield {"kind": "runtime", "fault": sorted(RUNTIME)[i % len(RUNTIME)], "rseed": rng.randrange(10 ** 9)}
+    for i in range(ctx.n(8, 100)):
+        yield {"kind": "dupline", "variant": i % 2, "rseed": rng.randrange(10 ** 9)}
     for i in range(ctx.n(30, 600)):
         yield {"kind": "v2fault", "fault": ["unknown-command", "missing-param", "duplicate-result"][i % 3], "rseed": rng.randrange(10 ** 9)}
     req = None
@@ -251,9 +270,30 @@ def _check_cli(ctx, model, text, ok_lines, exp):
         stderr = res.stderr
     except Exception:
         stderr = res.output
-    marks = [ln for ln in stderr.split("\n") if ln.startswith("--> ")]
+    errlines = stderr.split("\n")
+    marks = [ln for ln in errlines if ln.startswith("--> ")]
     lines = text.split("\n")
     ok_src = [lines[n - 1].strip("\r") for n in sorted(ok_lines)]
+    if marks and marks[0][4:] in ok_src:
+        # the marker is identified by position, not by text: the (up to three) context lines printed before it must be the
+        # source lines preceding one of the acceptable lines
+        mi = errlines.index(marks[0])
+        ctx_before = []
+        k = mi - 1
+        while k >= 0 and errlines[k].startswith("    ") and len(ctx_before) < 3:
+            ctx_before.insert(0, errlines[k][4:])
+            k -= 1
+        okpos = False
+        for n in sorted(ok_lines):
+            if lines[n - 1].strip("\r") != marks[0][4:]:
+                continue
+            want_before = [x.strip("\r") for x in lines[max(0, n - 1 - 3):n - 1]]
+            # blank source lines are printed as four spaces only; compare what can be compared
+            if [x for x in want_before][-len(ctx_before):] == ctx_before or not ctx_before and not any(want_before):
+                okpos = True
+        if not okpos and ctx_before:
+            ctx.fail("cli:%s:marker-at-wrong-position" % exp["fault"], {"marked": marks[0][:100], "context_before_marker": ctx_before, "acceptable_lines": sorted(ok_lines)})
+            return
     if not marks:
         ctx.fail("cli:%s:no-marker-line" % exp["fault"], {"stderr": stderr[-600:], "exit": res.exit_code, "exception": repr(res.exception)[:200]})
     elif marks[0][4:] not in ok_src:
@@ -301,9 +341,79 @@ def run_v2fault(ctx, case):
                text, {start}, {"fault": "eems2-" + fault})
 
 
+RUNTIME = {
+    "bad-direction": ("CvtToFuzzy", "Direction", "InvalidDirection", 'X%d = CvtToFuzzy(\n    InFieldName = A,\n    TrueThreshold = 5,\n    FalseThreshold = 1,\n    Direction = %s\n)'),
+    "bad-direction-binary": ("CvtToBinary", "Direction", "InvalidDirection", 'X%d = CvtToBinary(\n    InFieldName = A,\n    Threshold = 2,\n\n    Direction = %s\n)'),
+    "dup-raw": ("NormalizeCurve", "RawValues", "DuplicateRawValues", 'X%d = NormalizeCurve(\n    InFieldName = A,\n    RawValues = %s,\n    NormalValues = [0, 1]\n)'),
+    "bad-truest": ("FuzzySelectedUnion", "TruestOrFalsest", "InvalidTruestOrFalsest", 'X%d = FuzzySelectedUnion(\n    InFieldNames = [FA],\n    NumberToConsider = 1,\n    TruestOrFalsest = %s\n)'),
+    "k-too-big": ("FuzzySelectedUnion", "NumberToConsider", "InvalidNumberToConsider", 'X%d = FuzzySelectedUnion(\n    InFieldNames = [FA],\n    TruestOrFalsest = Truest,\n    # k\n    NumberToConsider = %s\n)'),
+}
+GOOD = {"bad-direction": "LowToHigh", "bad-direction-binary": "HighToLow", "dup-raw": "[1, 2]", "bad-truest": "Falsest", "k-too-big": "1"}
+BAD = {"bad-direction": "Sideways", "bad-direction-binary": "up", "dup-raw": "[1, 1]", "bad-truest": "Middle", "k-too-big": "3"}
+
+
+def run_runtime(ctx, case):
+    """Several commands of one class give the same argument on different lines; one of them fails while executing with an
+    error that carries a line: it must be the line of *its own* command or argument."""
+    from mpilot.program import Program
+    rng = random.Random(case["rseed"])
+    kind = case["fault"]
+    cls, argname, want, tmpl = RUNTIME[kind]
+    d = ctx.scratch()
+    with open(os.path.join(d, "in.csv"), "w") as f:
+        f.write("X0\n1\n2\n3\n5\n")
+    blocks = ['A = EEMSRead(InFileName = "in.csv", InFieldName = "X0")', 'FA = CvtToFuzzy(InFieldName = A, TrueThreshold = 5, FalseThreshold = 1)']
+    n = rng.randint(2, 4)
+    bad_i = rng.randrange(n)
+    for i in range(n):
+        blocks.append(tmpl % (i, BAD[kind] if i == bad_i else GOOD[kind]))
+        if rng.random() < 0.5:
+            blocks.append("")
+    rng.shuffle(blocks)
+    text = "\n".join(blocks)
+    lines = text.split("\n")
+    start = [k + 1 for k, ln in enumerate(lines) if ln.startswith("X%d = " % bad_i)][0]
+    argline = start + [k for k, ln in enumerate(lines[start - 1:]) if ln.strip().startswith(argname + " =")][0]
+    ctx.feature(("runtime", kind, n, bad_i))
+    err = None
+    try:
+        p = Program.from_source(text, working_dir=d)
+        p.run()
+    except Exception as e:
+        err = e
+    if err is None or type(err).__name__ != want:
+        ctx.dontcare("runtime fault %s gave %s" % (kind, type(err).__name__ if err else "no error"))
+        return
+    ctx.count("runtime_fault_linenos_checked")
+    got = getattr(err, "lineno", None)
+    if got is not None and got not in (start, argline):
+        ctx.fail("runtime-fault:%s:line-of-another-command" % kind, {"got": got, "own_command_line": start, "own_argument_line": argline, "text": text})
+    elif got is not None and case["rseed"] % 2 == 0:
+        _check_cli(ctx, {"table": {"cols": {"X0": {"data": [1, 2, 3, 5], "integer": True}}, "nrows": 4, "missing": None, "file": "in.csv"}}, text, {got}, {"fault": "runtime-" + kind})
+
+
+def run_dupline(ctx, case):
+    """Identical lines around the offending one: the CLI must mark the offending line itself (checked through the context
+    lines printed before and after the marker)."""
+    rng = random.Random(case["rseed"])
+    d = ctx.scratch()
+    pre = ["# model"] * rng.randint(0, 2)
+    body = ['A = EEMSRead(InFileName = "in.csv", InFieldName = "X0")'] * 2 if case["variant"] == 0 else \
+           ['A = EEMSRead(InFileName = "in.csv", InFieldName = "X0")', 'B = Copy(', '    InFieldName = A', ')', 'C = FuzzyNot(', '    InFieldName = A', ')']
+    text = "\n".join(pre + body)
+    bad_line = len(pre) + (2 if case["variant"] == 0 else 6)
+    ctx.feature(("dupline", case["variant"], len(pre)))
+    _check_cli(ctx, {"table": {"cols": {"X0": {"data": [1, 2, 3], "integer": True}}, "nrows": 3, "missing": None, "file": "in.csv"}}, text, {bad_line},
+               {"fault": "identical-lines-%d" % case["variant"]})
+
+
 def run_case(ctx, case):
     if case["kind"] == "tree":
         return run_tree(ctx, case)
+    if case["kind"] == "runtime":
+        return run_runtime(ctx, case)
+    if case["kind"] == "dupline":
+        return run_dupline(ctx, case)
     if case["kind"] == "v2fault":
         return run_v2fault(ctx, case)
     return run_fault(ctx, case)
